@@ -235,7 +235,13 @@ LEVEL_TEXT = (
     "specification has no other solution, so rule database, proof-tree choice and time slicing cannot change the counts. "
     "The hypotheses are theorems of C09/C10/C03/C11 or per-instance verdicts of C02; the executable evaluator (C09 "
     "constructor models, bottom-up in declared-shift order) is compared with get_terms of every class of every "
-    "specification returned by real searches, and the oracle compares with brute force."
+    "specification returned by real searches, and the oracle compares with brute force. "
+    "C01_forest_pipeline_correct / _unique chain C03, C11 and C01 for RuleDBForest with NO productivity hypothesis "
+    "left: if the table-method model run on the inserted forest keys (any order, any set.pop() resolution) reports "
+    "the start class as pumping, the extractor model returns keys, and each extracted key was turned back into a rule "
+    "with that key, then genuine and local rules make the recursive evaluation return the true counts of the start "
+    "class at every size, with no other solution (C03 sound_complete and C11 extract_productive discharge the "
+    "productivity hypothesis of C01_spec_correct)."
 )
 LEVEL_NOTE = (
     "The link between the bottom-up executable evaluator and the recursive `eval` of Spec/Eval.v is the uniqueness "
